@@ -1041,3 +1041,73 @@ Proof.
     rewrite header_line_cat_name by assumption. unfold corrected_name. cbn [andb rmap].
     rewrite IH. reflexivity.
 Qed.
+
+(* ================================================================================================ *)
+(* D.4 well-formed instances; the header of a written file                                          *)
+(* ================================================================================================ *)
+Record wf_cat (i : cinst) : Prop := mk_wf_cat {
+  wf_some_ballot : c_prefs i <> [];                                       (* at least one ballot *)
+  wf_ncat : (1 <= c_num_categories i)%N;                                  (* 1 or more categories *)
+  wf_len : Forall (fun b => N.of_nat (List.length b) = c_num_categories i) (c_prefs i);
+  wf_mult_pos : Forall (fun p => (1 <= snd p)%N) (c_mult i);              (* multiplicities >= 1 *)
+  wf_keys : map fst (c_mult i) = c_prefs i;                               (* table keys = ballot list *)
+  wf_nodup : NoDup (c_prefs i);
+  wf_meta : wf_fields (c_meta i);                                         (* single-line, no outer whitespace *)
+  wf_dtype : data_type (c_meta i) = lit "cat";
+  wf_resv : reserved (c_meta i) = [];                                     (* no parser state *)
+  wf_alts : wf_names (alt_names (c_meta i));                              (* names as above, may be EMPTY; ids distinct *)
+  wf_cats : wf_names (c_cat_names i)
+}.
+
+Lemma wf_ballots_nonempty i : wf_cat i -> Forall (fun b => b <> []) (c_prefs i).
+Proof.
+  intros W. eapply Forall_impl; [|apply (wf_len i W)]. intros b Hb ->. simpl in Hb.
+  pose proof (wf_ncat i W). lia.
+Qed.
+
+Lemma hash_line_nl l : hash_line l -> hash_line (l ++ nl).
+Proof. intros [r ->]. now exists (r ++ nl). Qed.
+
+Lemma name_lines_hash prefix d : hash_line prefix ->
+  Forall hash_line (map (fun p => name_line prefix (fst p) (snd p)) d).
+Proof.
+  intros [r ->]. apply Forall_forall. intros l Hl. apply in_map_iff in Hl as [[a nm] [<- _]].
+  unfold name_line, name_key. eexists. reflexivity.
+Qed.
+
+Lemma header_lines_hash i : Forall hash_line (header_lines i).
+Proof.
+  unfold header_lines. rewrite !Forall_app. repeat split.
+  - unfold meta_lines. repeat constructor; eexists; reflexivity.
+  - unfold count_lines. repeat constructor; eexists; reflexivity.
+  - apply name_lines_hash. eexists; reflexivity.
+  - apply name_lines_hash. eexists; reflexivity.
+Qed.
+
+Definition start_inst : cinst := cinst0 (meta0 (lit "cat")).
+
+Lemma fold_header_all i : wf_cat i ->
+  fold_header false [] (Ok start_inst) (header_lines i) = Ok (set_c_ballots i [] []).
+Proof.
+  intros W. unfold header_lines. rewrite !fold_header_app.
+  (* the nine metadata lines *)
+  rewrite (fold_header_meta_lines false [] start_inst (meta_lines (c_meta i)))
+    by (apply meta_lines_not_cat, (wf_meta i W)).
+  rewrite metadata_roundtrip by apply (wf_meta i W). cbn [rmap].
+  (* the four count lines *)
+  rewrite fold_header_counts.
+  (* category names *)
+  destruct (wf_cats i W) as [CF CN].
+  rewrite fold_header_cat_names by exact CF.
+  (* alternative names *)
+  destruct (wf_alts i W) as [AF AN].
+  rewrite fold_header_meta_lines by (now apply alt_name_lines_not_cat).
+  rewrite alt_names_roundtrip_fresh; [|split; assumption|reflexivity].
+  cbn [rmap]. f_equal.
+  (* the rebuilt record *)
+  cbn [c_cat_names c_meta c_num_unique c_num_categories c_prefs c_mult set_c_meta set_c_cat_names
+       set_c_num_categories set_c_num_unique set_c_ballots start_inst cinst0].
+  rewrite (set_all_fresh (c_cat_names i) []) by exact CN. cbn [app].
+  pose proof (wf_resv i W) as R.
+  destruct i as [m nu nc cn pr mu]. destruct m. cbn in R. subst. reflexivity.
+Qed.
